@@ -66,22 +66,32 @@ type Interceptor interface {
 	After(ev *Event)
 }
 
-type icptBox struct{ i Interceptor }
+type icptBox struct {
+	i    Interceptor
+	mask uint
+}
+
+// MaskAll selects every operation.
+const MaskAll = uint(1<<OpLock | 1<<OpUnlock | 1<<OpRLock | 1<<OpRUnlock)
 
 var icpt atomic.Pointer[icptBox]
 
 // SetInterceptor installs (or, with nil, removes) the interceptor.
-func SetInterceptor(i Interceptor) {
+func SetInterceptor(i Interceptor) { SetInterceptorMask(i, MaskAll) }
+
+// SetInterceptorMask installs an interceptor that only sees the operations
+// selected by mask (bit 1<<Op); the others take the plain sync path.
+func SetInterceptorMask(i Interceptor, mask uint) {
 	if i == nil {
 		icpt.Store(nil)
 		return
 	}
-	icpt.Store(&icptBox{i: i})
+	icpt.Store(&icptBox{i: i, mask: mask})
 }
 
-func current() Interceptor {
+func current(op Op) Interceptor {
 	b := icpt.Load()
-	if b == nil {
+	if b == nil || b.mask&(1<<uint(op)) == 0 {
 		return nil
 	}
 	return b.i
@@ -131,7 +141,7 @@ func trimFn(fn string) string {
 type Mutex struct{ mu gosync.Mutex }
 
 func (m *Mutex) Lock() {
-	if i := current(); i != nil {
+	if i := current(OpLock); i != nil {
 		ev := mkEvent(OpLock, unsafe.Pointer(m), false)
 		i.Before(ev)
 		m.mu.Lock()
@@ -144,7 +154,7 @@ func (m *Mutex) Lock() {
 func (m *Mutex) TryLock() bool { return m.mu.TryLock() }
 
 func (m *Mutex) Unlock() {
-	if i := current(); i != nil {
+	if i := current(OpUnlock); i != nil {
 		ev := mkEvent(OpUnlock, unsafe.Pointer(m), false)
 		i.After(ev)
 	}
@@ -155,7 +165,7 @@ func (m *Mutex) Unlock() {
 type RWMutex struct{ mu gosync.RWMutex }
 
 func (m *RWMutex) Lock() {
-	if i := current(); i != nil {
+	if i := current(OpLock); i != nil {
 		ev := mkEvent(OpLock, unsafe.Pointer(m), true)
 		i.Before(ev)
 		m.mu.Lock()
@@ -166,7 +176,7 @@ func (m *RWMutex) Lock() {
 }
 
 func (m *RWMutex) Unlock() {
-	if i := current(); i != nil {
+	if i := current(OpUnlock); i != nil {
 		ev := mkEvent(OpUnlock, unsafe.Pointer(m), true)
 		i.After(ev)
 	}
@@ -174,7 +184,7 @@ func (m *RWMutex) Unlock() {
 }
 
 func (m *RWMutex) RLock() {
-	if i := current(); i != nil {
+	if i := current(OpRLock); i != nil {
 		ev := mkEvent(OpRLock, unsafe.Pointer(m), true)
 		i.Before(ev)
 		m.mu.RLock()
@@ -185,7 +195,7 @@ func (m *RWMutex) RLock() {
 }
 
 func (m *RWMutex) RUnlock() {
-	if i := current(); i != nil {
+	if i := current(OpRUnlock); i != nil {
 		ev := mkEvent(OpRUnlock, unsafe.Pointer(m), true)
 		i.After(ev)
 	}
